@@ -445,6 +445,22 @@ func (c *cmafIngester) triggerNextSegment() {
 	c.nextSegTrigger <- struct{}{}
 }
 
+// tryTriggerNextSegment hands a step to the session goroutine like triggerNextSegment, but reports false when
+// the session does not take it within stepTimeout (finished, stopped, deleted or not started) instead of
+// blocking for ever.
+func (c *cmafIngester) tryTriggerNextSegment(ctx context.Context) bool {
+	select {
+	case c.nextSegTrigger <- struct{}{}:
+		return true
+	case <-ctx.Done():
+		return false
+	case <-time.After(stepTimeout):
+		return false
+	}
+}
+
+const stepTimeout = 2 * time.Second
+
 func (c *cmafIngester) dest() string {
 	d := c.destRoot
 	if c.destName != "" {
